@@ -243,7 +243,7 @@ def admitted_tags(row, pruning_size, beta, use_beta, margin=0.3):
         best = float(row[order[0]])
         if math.exp(best) == 0.0:
             amb = True   # every probability underflows to zero; "below beta times the best" is degenerate
-        lnb = math.log(beta)
+        lnb = math.log(beta) if beta > 0 else -math.inf      # beta = 0: nothing is below zero times the best probability
         for t in list(adm):
             diff = float(row[t]) - best
             if abs(diff - lnb) < margin:
